@@ -1,9 +1,11 @@
 #!/bin/bash
 # allthorough.sh <id>... — thorough tier of the given properties, one after another; one summary line each
-cd /verif
+ROOT="$(cd "$(dirname "${BASH_SOURCE[0]}")/.." && pwd)"
+cd "$ROOT"
+mkdir -p "$ROOT/out"
 for id in "$@"; do
   t0=$(date +%s)
   out=$(./check $id thorough 2>&1); rc=$?
   echo "$id exit=$rc wall=$(( $(date +%s) - t0 ))s $(echo "$out" | grep -E '^(OK|VIOLATION|INCONCLUSIVE|fuzz stage)' | head -3 | tr '\n' ' ' | cut -c1-300)"
-  echo "$out" > /verif/out/thorough-$id.log
+  echo "$out" > "$ROOT/out/thorough-$id.log"
 done
